@@ -367,7 +367,31 @@ def run(*, tier, seed, jobs, progress, opts):
                       f'executions, total {execs}, '
                       f'{len(violations)} violations, '
                       f't={time.perf_counter() - t0:.0f}s', flush=True)
-    cov = {'states': len(outcomes), 'transitions': points_total,
+    # the maildir backend: real files, virtual time, 1 s poll
+    from . import c16md
+    from ..worlds import scratch_parent
+    bursts = list(c16md.scenarios(tier))
+    layouts = ['++'] if tier == 'quick' else ['++', 'fs']
+    chunk = max(4, len(bursts) // 16)
+    mtasks = [(lay, bursts[i:i + chunk]) for lay in layouts
+              for i in range(0, len(bursts), chunk)]
+    md_execs = 0
+    with scratch_parent(), mp.get_context('fork').Pool(njobs) as pool:
+        for vs, n in pool.imap_unordered(c16md.task, mtasks):
+            violations += vs
+            md_execs += n
+    execs += md_execs
+    cov = {'states': len(outcomes), 'transitions': points_total + md_execs,
+           'maildir': {'layouts': layouts, 'bursts': len(bursts),
+                       'executions': md_execs,
+                       'rule': 'every burst of <= 2 (thorough 3) commands of '
+                               '{APPEND, STORE +Flagged, STORE +Deleted, '
+                               'EXPUNGE, MOVE, STORE FLAGS (), COPY} by '
+                               'another session - each command at quiescence, '
+                               'with a poll of the idler in between, or '
+                               'pipelined - then 3.5 s of virtual time and '
+                               'nothing else: the idler must hold the mailbox '
+                               'a third session reports'},
            'traces_validated_against_impl': execs,
            'executions': execs, 'executions_per_deviation_count': per_level,
            'deviation_bound_completed': bound,
@@ -386,11 +410,20 @@ def run(*, tier, seed, jobs, progress, opts):
                   coverage=cov, violations=violations, t0=t0, assumptions=[
                       'dict backend / asyncio subsystem; 1-2 idlers, 1-2 '
                       'writers, bursts <= 2 (thorough 3) commands',
-                      'maildir (1 s poll) is not in this check'])
+                      'maildir: default environment only (no deviation '
+                      'enumeration), one idler, one writer'])
 
 
 def replay(rec):
     r = rec['replay']
+    if r.get('md'):
+        from . import c16md
+        from ..worlds import scratch_parent
+        with scratch_parent():
+            vs = c16md.run_one(r['layout'], r['burst'], r['mode'], r['gap'])
+        for v in vs:
+            print('VIOLATION-REPLAYED', v['rule'], v['site'], v['msg'])
+        return 1 if vs else 0
     sc = Scenario(*[tuple(x) if isinstance(x, list) else x
                     for x in r['scenario']])
     ex = Exec(sc)
